@@ -22,6 +22,11 @@ with open('/verif/seeded/sweep/SUMMARY.md','w') as f:
     f.write('| check | mutants |\n|---|---|\n')
     for k,v in by.most_common(): f.write(f'| {k} | {v} |\n')
     f.write('\n`harness-build-fails` = the library still compiles but definitions of the generated corpus do not (the driver then takes the CORPUS-REDUCED path).\n')
+    gaps=[r for r in rs if r['verdict']!='SURVIVOR' and TRIAGE.get(r['file']+':'+str(r['line']),'').startswith('GAP')]
+    if gaps:
+        f.write('\n## Survivors of the first pass that were gaps and are caught now (re-run against the final harness)\n\n| site | change | closed by | now caught by |\n|---|---|---|---|\n')
+        for r in gaps:
+            f.write(f"| {r['file']}:{r['line']} | `{r['old'].strip()[:70]}` -> `{r['new'].strip()[:70]}` | {TRIAGE[r['file']+':'+str(r['line'])][13:]} | {r.get('by')} |\n")
     f.write('\n## Survivors (no quick check objects, the 71 unit tests pass)\n\n| site | change | triage |\n|---|---|---|\n')
     for r in rs:
         if r['verdict']=='SURVIVOR':
